@@ -24,6 +24,8 @@ PROPS = {
     "C14": (["hist_random", "mc_quick"], "TLC trace validation of Travel / Retrievable"),
     "C15": (["hist_random", "mc_quick"], "TLC trace validation of Unstage / ExportReplay / Guards / CommitCleans"),
     "C16": (["hist_random", "mc_quick", "fn_diff"], "TLC trace validation of Reconstructs / StoredEqualsSubmitted"),
+    "C17": (["kv", "multi_backend"], "every backend stack against the KVStore model (KVTrace.tla) on seeded operation sequences; the same histories over every backend in lock-step (MultiRun.tla)"),
+    "C18": (["multi_config"], "the same histories under pool sizes 1..16, permuted listing orders, cache capacities 1..3 and fresh hash seeds, compared step by step (MultiRun.tla)"),
     "C19": (["hist_random", "mc_quick", "fn_revision"], "TLC trace validation of Canonical / LeafOrderTotal"),
 }
 
@@ -80,7 +82,7 @@ def st_hist_random(tier, seed, d):
     specs = os.path.join(d, "specs.ndjson")
     n = {"quick": 1, "thorough": 25}[tier]
     plan = [("random", 110 * n), ("crash", 30 * n), ("floats", 20 * n), ("single", 20 * n),
-            ("deliver", 40 * n), ("fail", 30 * n), ("damage", 30 * n), ("arrays", 40 * n)]
+            ("deliver", 40 * n), ("fail", 30 * n), ("damage", 30 * n), ("arrays", 40 * n), ("travel", 24 * n)]
     base = 0
     open(specs, "w").close()
     for prof, cnt in plan:
@@ -178,6 +180,165 @@ def mc_stage(cfgname, quick_sample, thorough_sample, tryall_quick, tryall_thorou
     return run
 
 
+def generic_validate(files, module, cfg, envf, jobs=None):
+    from concurrent.futures import ThreadPoolExecutor
+    jobs = jobs or max(1, vlib.NCPU - 2)
+    with ThreadPoolExecutor(max_workers=jobs) as ex:
+        return list(ex.map(lambda f: vlib.validate_bundle(f, cfg, module=module, env=envf(f)), files))
+
+
+def fold_results(results, tag):
+    viol, counts, states, consumed = [], {}, 0, 0
+    for r in results:
+        if r.get("error"):
+            raise vlib.ToolError("%s validation failed on %s:\n%s" % (tag, r["bundle"], r["error"]))
+        for v in r["violations"]:
+            v["fn"] = tag
+            viol.append(v)
+        for k, c in r["counts"].items():
+            counts[k] = counts.get(k, 0) + c
+        states += r["states"]
+        consumed += r["consumed"]
+    return viol, counts, states, consumed
+
+
+def st_kv(tier, seed, d):
+    """C17: seeded operation sequences on every backend stack, validated against spec/KVTrace.tla."""
+    import subprocess
+    os.makedirs(d, exist_ok=True)
+    tmp = os.path.join(OUT, "tmp", "kv_%d" % os.getpid())
+    os.makedirs(tmp, exist_ok=True)
+    nseq, nops = (60, 60) if tier == "quick" else (1500, 200)
+    p = subprocess.run([vlib.MVH, "kv", "--out", d, "--tmp", tmp, "--seed", str(seed), "--seqs", str(nseq), "--ops", str(nops),
+                        "--shards", "12"], stdout=subprocess.PIPE, stderr=subprocess.STDOUT, text=True)
+    shutil.rmtree(tmp, ignore_errors=True)
+    if p.returncode != 0:
+        raise vlib.ToolError("mvh kv failed: " + p.stdout[-2000:])
+    files = sorted(glob.glob(os.path.join(d, "*.kv.ndjson")))
+    results = generic_validate(files, "KVTrace.tla", "KVTrace.cfg", lambda f: {"TRACE": f})
+    viol, counts, states, consumed = fold_results(results, "kv")
+    samples = []
+    with open(files[0]) as fh:
+        for i, line in enumerate(fh):
+            if i in (0, 5, 50, 200):
+                samples.append(json.loads(line))
+    rc, out = vlib.run_tlc(os.path.join(vlib.SPEC, "KVStoreMC.tla"), os.path.join(vlib.SPEC, "KVStoreMC.cfg"), workers=2, queue_deque=False)
+    import re
+    m = re.search(r"(\d+) states generated, (\d+) distinct", out)
+    if "No error has been found" not in out:
+        raise vlib.ToolError("KVStoreMC failed:\n" + out[-1500:])
+    return {"violations": viol, "counts": counts, "tlc_states": states, "events": consumed, "runs": nseq, "timeouts": [],
+            "samples": samples, "model": {"config": "KVStoreMC", "states_generated": int(m.group(1)), "distinct_states": int(m.group(2))}}
+
+
+MULTI_CONFIGS = {
+    "config": [
+        ("p1", {"pool": 1}, {}),
+        ("p2-list1", {"pool": 2, "list_seed": 11}, {}),
+        ("p16-list2", {"pool": 16, "list_seed": 12345}, {}),
+        ("p4-caps1", {"pool": 4}, {"MELDA_DATA_CACHE_CAP": "1", "MELDA_ARRAYDESCRIPTORS_CACHE_CAP": "1"}),
+        ("p3-caps2", {"pool": 3, "list_seed": 7}, {"MELDA_DATA_CACHE_CAP": "2", "MELDA_ARRAYDESCRIPTORS_CACHE_CAP": "2"}),
+        ("p8-caps3", {"pool": 8}, {"MELDA_DATA_CACHE_CAP": "3", "MELDA_ARRAYDESCRIPTORS_CACHE_CAP": "3"}),
+    ],
+    "backend": [
+        ("memory", {"backend": "memory"}, {}),
+        ("own", {}, {}),
+        ("fs", {"backend": "fs"}, {}),
+        ("sqlite", {"backend": "sqlite"}, {}),
+        ("sqlitemem+flate", {"backend": "sqlitemem+flate"}, {}),
+        ("memory+brotli", {"backend": "memory+brotli"}, {}),
+        ("fs+flate", {"backend": "fs+flate"}, {}),
+    ],
+}
+EXTRA_CONFIGS_THOROUGH = [("p%d-l%d" % (n, n), {"pool": n, "list_seed": 100 + n}, {"MELDA_DATA_CACHE_CAP": str(1 + n % 4), "MELDA_ARRAYDESCRIPTORS_CACHE_CAP": str(1 + (n // 2) % 4)})
+                          for n in (5, 6, 7, 9, 10, 11, 12, 13, 14, 15)]
+
+
+def view_of(e):
+    o = e.get("obs", {})
+    if "items" not in o:
+        return {"res": e["res"]["kind"], "none": True}
+    return {"res": e["res"]["kind"], "objects": o["objects"], "winner": o["winner"], "confl": o["confl"],
+            "inconf": o["inconf"], "doc": o["doc"]["sha"], "docok": o["doc"]["ok"], "staging": o["staging"]}
+
+
+def multi_stage(dim):
+    def run(tier, seed, d):
+        import subprocess
+        os.makedirs(d, exist_ok=True)
+        base = os.path.join(d, "base.ndjson")
+        n = (60 if tier == "quick" else 1500)
+        open(base, "w").close()
+        k = 0
+        # (no "deliver"/"copy" here: item names depend on hash order, so file-by-file delivery orders are not comparable across runs)
+        for prof, cnt in (("multi", n // 2), ("arrays", n // 4), ("travel", n // 4)):
+            vlib.gen_specs(base, seed + 17, cnt, prof, base=k, append=True)
+            k += cnt
+        configs = list(MULTI_CONFIGS[dim])
+        if tier == "thorough" and dim == "config":
+            configs += EXTRA_CONFIGS_THOROUGH
+        per = {}
+        specs_lines = [json.loads(l) for l in open(base) if l.strip()]
+        tmp = os.path.join(OUT, "tmp", "multi_%d" % os.getpid())
+        procs = []
+        for name, over, env in configs:
+            cd = os.path.join(d, name.replace("+", "_"))
+            os.makedirs(cd, exist_ok=True)
+            sp = os.path.join(cd, "specs.ndjson")
+            with open(sp, "w") as f:
+                for s0 in specs_lines:
+                    s1 = dict(s0)
+                    s1.pop("list_seed", None)
+                    s1["full"] = False
+                    s1.update(over)
+                    if "backend" in over:
+                        s1["tmpdir"] = os.path.join(tmp, name.replace("+", "_"))
+                    f.write(json.dumps(s1) + "\n")
+            e = dict(os.environ)
+            e.update(env)
+            procs.append((name, cd, subprocess.Popen([vlib.MVH, "hist", "--specs", sp, "--out", cd, "--jobs", "4", "--timeout-ms", "20000",
+                                                      "--bundle", "100000"], env=e, stdout=subprocess.PIPE, stderr=subprocess.STDOUT, text=True)))
+        for name, cd, p in procs:
+            out, _ = p.communicate()
+            if p.returncode != 0:
+                raise vlib.ToolError("mvh hist (%s) failed: %s" % (name, out[-1500:]))
+            views = {}
+            for f in glob.glob(os.path.join(cd, "b*.trace.ndjson")):
+                with open(f) as fh:
+                    seq = {}
+                    for line in fh:
+                        e = json.loads(line)
+                        if e["op"] == "reset":
+                            continue
+                        key = (e["run"], seq.setdefault(e["run"], 0))
+                        seq[e["run"]] += 1
+                        views[key] = (e["op"], view_of(e))
+            per[name] = views
+        shutil.rmtree(tmp, ignore_errors=True)
+        names = [c[0] for c in configs]
+        keys = sorted(set().union(*[set(v.keys()) for v in per.values()]))
+        shards = 8
+        files = [open(os.path.join(d, "multi%03d.multi.ndjson" % i), "w") for i in range(shards)]
+        for (run, i) in keys:
+            vs, cf, op = [], [], ""
+            for nme in names:
+                if (run, i) in per[nme]:
+                    op = per[nme][(run, i)][0]
+                    vs.append(dict(per[nme][(run, i)][1], op=op))
+                    cf.append(nme)
+            rec = {"dim": dim, "run": run, "i": i + 1, "op": op, "cfgs": names, "have": cf, "views": vs}
+            files[run % shards].write(json.dumps(rec) + "\n")
+        for f in files:
+            f.close()
+        fl = [f.name for f in files if os.path.getsize(f.name) > 0]
+        results = generic_validate(fl, "MultiRun.tla", "MultiRun.cfg", lambda f: {"TRACE": f})
+        viol, counts, states, consumed = fold_results(results, "multi:" + dim)
+        return {"violations": viol, "counts": counts, "tlc_states": states, "events": consumed, "runs": len(specs_lines) * len(configs),
+                "timeouts": [], "samples": [{"configs": names, "histories": len(specs_lines)}],
+                "configs": [{"name": c[0], "spec": c[1], "env": c[2]} for c in configs]}
+    return run
+
+
 def fn_stage(which):
     def run(tier, seed, d):
         info = vlib.run_fn(which, d, tier, seed)
@@ -222,7 +383,8 @@ def st_mc_merge(tier, seed, d):
 
 STAGES = {"hist_random": st_hist_random, "fn_merge": fn_stage("merge"), "fn_diff": fn_stage("diff"),
           "fn_revision": fn_stage("revision"), "fn_revtree": fn_stage("revtree"), "mc_merge": st_mc_merge,
-          "mc_quick": mc_stage("MC_quick.cfg", 300, 6000, 24, 400)}
+          "mc_quick": mc_stage("MC_quick.cfg", 300, 6000, 24, 400),
+          "kv": st_kv, "multi_config": multi_stage("config"), "multi_backend": multi_stage("backend")}
 
 # ---------------------------------------------------------------- known findings
 
